@@ -30,6 +30,7 @@ import SoyVerif.Model.Parser
 import SoyVerif.Model.Lexer
 import SoyVerif.Model.RawText
 import SoyVerif.Base.Utf8
+import SoyVerif.Base.F64
 
 namespace SoyVerif.Model.FileParser
 open SoyVerif SoyVerif.Model SoyVerif.Model.Parser
@@ -1011,22 +1012,41 @@ def parseFile (items : List Item) : Except FErr (List Node) :=
   | .ok (_, _) => .error .panic
   | .error e => .error e
 
-/-- What a caller of `parse.SoyFile` can observe about the lexer goroutine: `SoyFile` does
-    not drain after a successful parse (it relies on having consumed the EOF item, after
-    which the lexer closes the channel); `tree.recover` drains on an error, except for a Go
-    runtime error, which it re-panics before draining. -/
+/-- What a caller of `parse.SoyFile` can observe about the lexer goroutine it started:
+    * `drainCalled` — `tree.recover` ran `t.lex.drain()`: on every error except a Go runtime
+      error, which it re-panics BEFORE draining.  `SoyFile` does NOT drain after a successful
+      parse: it relies on having received the EOF item, after which the lexer closes the
+      channel and exits;
+    * `received` — how many items the parser took from the channel (known on success);
+    * `drained` — the lexer goroutine can finish: drained, or every item was received. -/
 structure FileOutcome where
   result : Except FErr (List Node)
+  drainCalled : Bool
+  received : Nat
   drained : Bool
 
 def fileEntry (items : List Item) : FileOutcome :=
   let init : FState := { p := Parser.initState items }
   match (itemListLoop pf ef (fuelFor items.length) [.tEOF] none .nil).run init with
-  | .ok (.list _ nodes, st) => { result := .ok nodes.toList, drained := st.p.rest.isEmpty }
-  | .ok (_, _) => { result := .error .panic, drained := false }
-  | .error (.err p) => { result := .error (.err p), drained := true }
-  | .error .panic => { result := .error .panic, drained := false }
-  | .error .fuelOut => { result := .error .fuelOut, drained := false }
+  | .ok (.list _ nodes, st) =>
+    { result := .ok nodes.toList, drainCalled := false, received := items.length - st.p.rest.length,
+      drained := st.p.rest.isEmpty }
+  | .ok (_, _) => { result := .error .panic, drainCalled := false, received := 0, drained := false }
+  | .error (.err p) => { result := .error (.err p), drainCalled := true, received := 0, drained := true }
+  | .error .panic => { result := .error .panic, drainCalled := false, received := 0, drained := false }
+  | .error .fuelOut => { result := .error .fuelOut, drainCalled := false, received := 0, drained := false }
+
+/-- What `parseQuotedExpr(str)` does with the NESTED lexer goroutine it starts
+    (`lexExpr("", str)`): `defer tt.lex.drain()` runs on every way out — a tree, an error of
+    the nested parser (re-raised in the enclosing parser), even a runtime panic. -/
+structure QuotedOutcome where
+  result : Except PErr Expr
+  drainCalled : Bool
+
+def quotedEntry (items : List Item) : QuotedOutcome :=
+  match (Parser.parseExpr pf (Parser.fuelFor items.length) 0).run (Parser.initState items) with
+  | .ok (e, _) => { result := .ok e, drainCalled := true }
+  | .error e => { result := .error e, drainCalled := true }
 
 end
 
@@ -1039,5 +1059,21 @@ def parseSource (pf : Bytes → Option UInt64) (input : Bytes) : Except FErr (Li
   | .items is => parseFile pf (exprFuel is) is
   | .panic => .error .panic
   | .fuelOut => .error .fuelOut
+
+/-- `strconv.ParseFloat(tok.val, 64)` on a float token through the soft-float of Base/F64.lean
+    (`F64.parseDecimal`, tied to strconv by the C20f64 op `f64parse`): the bits, or `none` for a
+    range error (overflow to ±Inf).  This is the `pf` the protocol operations use, so the
+    parser correspondences need no float bits from the harness. -/
+def parseFloat64 (s : Bytes) : Option UInt64 :=
+  let (neg, digits) := match s with
+    | 45 :: r => (true, r)
+    | 43 :: r => (false, r)
+    | r => (false, r)
+  match F64.parseDecimal digits with
+  | some f => if f.isInf then none else some (if neg then (F64.neg f).bits else f.bits)
+  | none => none
+
+/-- `parse.SoyFile(name, input)` with Go's float parsing: the whole front end as one function -/
+def soyFile (input : Bytes) : Except FErr (List Node) := parseSource parseFloat64 input
 
 end SoyVerif.Model.FileParser
